@@ -37,6 +37,10 @@ struct Knobs {
     // to sleep for up to deschedule_max_ns of simulated time although it could run (timers of other threads fire meanwhile)
     std::uint32_t deschedule_per_65536 = 0;
     std::int64_t deschedule_max_ns = 1'500'000'000;
+    // a thread that has just been given the processor back does some work before it can lose it again: this many of its own scheduling
+    // points pass between two long preemptions of one fiber (otherwise a loop of 30 000 one-byte reads is slowed down a hundredfold,
+    // which is an overloaded machine, not a preemption). Drivers that aim preemptions at one operation set it to 0 for that time.
+    std::uint32_t deschedule_min_gap = 2000;
     // the same long preemption, aimed at the classic place of atomicity violations: right after a mutex is released (between two
     // critical sections that the code assumes to follow each other at once). Chance per unlock, in 1/65536.
     std::uint32_t deschedule_after_unlock_per_65536 = 0;
@@ -138,7 +142,8 @@ std::vector<std::string> trace_tail(std::size_t n);
 void partition(std::uint32_t host_a, std::uint32_t host_b, bool blocked);  // both directions
 // a driver may aim the after-unlock preemptions (Knobs::deschedule_after_unlock_per_65536) at one operation: rate and longest sleep from now on
 void set_deschedule_after_unlock(std::uint32_t per_65536, std::int64_t max_ns);
-void set_deschedule(std::uint32_t per_65536, std::int64_t max_ns);  // the same for Knobs::deschedule_per_65536 (any scheduling point)
+void set_deschedule(std::uint32_t per_65536, std::int64_t max_ns);
+void trace_blocked();  // writes "who is blocked without a deadline / which mutex is held by whom" into the trace (for liveness violations)  // the same for Knobs::deschedule_per_65536 (any scheduling point)
 void set_host_unreachable_fast(bool fast);  // partitioned connect: EHOSTUNREACH now vs ETIMEDOUT later
 // resolve table for getaddrinfo: name -> list of (family, address bytes)
 void dns_set(const std::string& name, const std::vector<std::string>& numeric_addrs);
